@@ -50,10 +50,10 @@ func init() {
 	specs["C19"] = &propSpec{
 		id:    "C19",
 		level: "fault_enumeration",
-		rule: "one evaluation = one (*ir.Module).WriteTo call into a simulated io.Writer that accepts exactly k bytes and then fails (shape short: the failing Write accepts the bytes up to k and returns the injected error; shape fullerr: it accepts its whole argument and returns the error), or a healthy writer forwarding in chunks; the writer is a plain io.Writer or also an io.StringWriter / io.ByteWriter / io.ReaderFrom / has failing Flush, Sync and Close methods; the error it returns is a plain value or one with Cause()/Unwrap() methods; in one step of eleven the failing Write panics with its error instead of returning it, in another it is short without saying so and the error comes with the next call; calls come in episodes (eight failing writes at consecutive offsets and one healthy write on the same module object); a seeded concurrent phase runs 2-3 WriteTo calls on different modules as scheduler tasks, each into its own writer; " +
+		rule: "one evaluation = one (*ir.Module).WriteTo call into a simulated io.Writer that accepts exactly k bytes and then fails (shape short: the failing Write accepts the bytes up to k and returns the injected error; shape fullerr: it accepts its whole argument and returns the error), or a healthy writer forwarding in chunks; the writer is a plain io.Writer or also an io.StringWriter / io.ByteWriter / io.ReaderFrom / has failing Flush, Sync and Close methods; the error it returns is a plain value or one with Cause()/Unwrap() methods; in one step of eleven the failing Write panics with its error instead of returning it, in another it is short without saying so and the error comes with the next call; calls come in episodes (eight failing writes at consecutive offsets and one healthy write on the same module object); a seeded concurrent phase runs 2-3 WriteTo calls on different modules as scheduler tasks, each into its own writer; every module is also written into real standard-library destinations (a healthy, a closed and a read-only *os.File, /dev/full, a pipe whose reader is gone, io.Discard, *bytes.Buffer, *strings.Builder, and at seeded offsets an io.Pipe whose reader takes exactly k bytes and closes with the injected error, a bufio.Writer and an io.MultiWriter in front of the failing writer) and into a writer that asks the module for its text during a Write (run as a scheduler task: a lock held across writer calls is a deadlock verdict); " +
 			"oracle: bytes delivered are a prefix of the twin's String() of exactly the accepted length, returned n equals the accepted byte count, returned err is the injected error (identity), no Write call follows the failing one; without a fault bytes == String(), n == len, err == nil. " +
 			"distinct_nontrivial counts distinct (module, start state, shape, k, chunk) tuples; every offset k in [0, len(String())] is enumerated for the modules listed under counters",
-		simulated:              []string{"io.Writer argument of WriteTo (failure offset, failure shape, chunking, error identity)"},
+		simulated:              []string{"io.Writer argument of WriteTo (failure offset, failure shape, chunking, error identity, optional interfaces, re-entrancy)", "real files and pipes in failing states (closed, read-only, /dev/full, reader gone), io.Pipe with a reader that stops at k"},
 		assumptions:            []string{"the simulated writer is contract-abiding (it never returns n < len(p) with a nil error) except in shape silent, where the Write that crosses k is short without an error and the error comes with the next call", "String() of an identically built twin is the reference text; a module whose String() panics or changes between two prints is skipped and counted (that is C14's subject)"},
 		exhaustiveWhenThorough: true,
 		plain:                  always,
@@ -107,11 +107,11 @@ func init() {
 	specs["C14"] = &propSpec{
 		id:    "C14",
 		level: "exploration",
-		rule: "one evaluation = one history: a generated construction/editing program over the public ir API (append globals, functions, blocks, ~25 kinds of instructions; set and replace terminators; name, rename and un-name values; insert and remove instructions) run as a builder task, interleaved at step boundaries by the seeded scheduler with an observer task (String, WriteTo, LLString of module/function/block/instruction/terminator/global, Type, Ident, String, Operands, Succs); " +
+		rule: "one evaluation = one history: a generated construction/editing program over the public ir API (append globals, functions, blocks, all 54 kinds of instructions — through the package-level constructors, the Block.New* methods or as struct literals; set and replace all 12 kinds of terminators; name, rename and un-name values; insert and remove instructions; replace operands, incoming values, callees, aliasees; edit types, module asm, attribute groups, explicit metadata IDs) run as a builder task, interleaved at step boundaries by the seeded scheduler with an observer task (String, WriteTo, LLString of module/function/block/instruction/terminator/global, Type, Ident, String, Operands, Succs; also print attempts on IR that cannot be printed at that moment — a block without terminator, two metadata definitions with one ID — whose panic is recovered); a tenth of the histories run under seeded map-iteration orders; a second phase runs histories as the first activity of a fresh process against the steps alone in another fresh process; " +
 			"oracle: the final String() is byte-identical to the final String() of the same program run with no observer, each double print is identical, nothing panics. " +
 			"distinct_nontrivial counts distinct histories (hash of the interleaved sequence of applied steps and applied observer calls) with at least one applied observer call and one context switch",
-		simulated:   []string{"interleaving of the builder task and the observer task (step granularity, seeded)"},
-		assumptions: []string{"steps are atomic: observation during a mutation is C13's subject", "a print observer is only offered a receiver all of whose blocks have terminators; operands are values of the same function; removed instructions have no users", "metadata definitions are not edited (the property lists globals, functions, blocks, instructions, terminators, names)", "sampling: a clean batch is evidence, not proof"},
+		simulated:   []string{"interleaving of the builder task and the observer task (step granularity, seeded)", "map iteration order of the printer (a tenth of the histories)", "process identity (cross-process phase: history and reference each in a fresh process)"},
+		assumptions: []string{"steps are atomic: observation during a mutation is C13's subject", "a print observer that is expected to succeed is only offered a receiver all of whose blocks have terminators; operands are values of the same function; removed instructions have no users", "metadata definitions are appended and (with explicit IDs only) renumbered, never reordered or removed: IDs that a print has assigned to unnumbered definitions are kept by design (the property lists globals, functions, blocks, instructions, terminators, names)", "sampling: a clean batch is evidence, not proof"},
 		procs:       1,
 		plain:       always,
 		shrinkTime:  90 * time.Second,
@@ -145,7 +145,7 @@ func init() {
 	specs["C12"] = &propSpec{
 		id:    "C12",
 		level: "exploration",
-		rule: "one evaluation = one simulated run: a corpus text (accepted or rejected) parsed through a tape-chosen entry point (ParseString, ParseBytes with the buffer overwritten afterwards, Parse over a simulated chunking/failing reader, ParseFile of a fresh file, of a pipe through /proc/self/fd, and of a path that was parsed a moment ago and now holds other bytes of the same size and mtime) with every map-range visit of the translator and printer iterated in a tape-chosen order, the clock simulated, after tape-chosen prior activity (other parses and prints, an earlier module of the same text scribbled over, heap perturbation), sequentially (plain build) or as 2-4 concurrent parse tasks under the seeded scheduler (race build; worker processes recycled every 4 runs, 40 in thorough, the first run of a process parsing one text on all tasks), followed by a canary parse; " +
+		rule: "one evaluation = one simulated run: a corpus text (accepted or rejected) parsed through a tape-chosen entry point (ParseString, ParseBytes with the buffer overwritten afterwards, Parse over a simulated chunking/failing reader, ParseFile of a fresh file, of a pipe through /proc/self/fd, of a path that was parsed a moment ago and now holds other bytes of the same size and mtime, Parse over a seekable reader positioned behind a prefix, and Parse / ParseFile of the text preceded by 64 MiB (thorough: 1 to 256 MiB) of comment lines) with every map-range visit of the translator and printer iterated in a tape-chosen order, the clock simulated, after tape-chosen prior activity (other parses and prints, an earlier module of the same text scribbled over, heap perturbation), sequentially (plain build) or as 2-4 concurrent parse tasks under the seeded scheduler (race build; worker processes recycled every 4 runs, 40 in thorough, the first run of a process parsing one text on all tasks), followed by a canary parse; " +
 			"oracle: accepted <=> accepted in the reference, String() byte-identical and structural digest (pointer-numbered reflection walk fixing field contents and sharing) identical to the reference computed in another process with canonical order, failing reader gives (nil, err), no race report between parse tasks, no package-level shared object modified, and no object (package-level singletons excepted) shared between the returned module and the modules earlier or concurrent parses of the run returned. " +
 			"distinct_nontrivial counts distinct (targets, entry points, hash of all applied map orders, hash of all context switches) among runs with a non-canonical map order or a context switch",
 		simulated:   []string{"Go map iteration order at every map range of asm/, ir/, internal/ (canonical order + tape-chosen permutation; keys created or re-created during a range produced or skipped by the tape)", "goroutine scheduling of concurrent parse tasks and of goroutines the translator starts (channels, select, wait groups, pools modelled)", "the file behind ParseFile (regular file, pipe, stat-identical overwrite)", "wall clock (time.Now/time.Since)", "io.Reader argument of asm.Parse (chunking, zero reads, EOF shape, failure offset)", "prior activity and heap state of the process"},
@@ -162,7 +162,7 @@ func init() {
 	specs["C05"] = &propSpec{
 		id:    "C05",
 		level: "fault_enumeration",
-		rule: "one evaluation = one asm.ParseString of a corpus module with a single naming fault, under one translation order; the faults are enumerated from llir/ll's own AST of the valid module: every reference site (global in initialisers, operands, callees, aliasees; local operand; named type anywhere; label in br/switch/indirectbr/invoke/callbr targets; phi predecessor; comdat use; metadata id in attachments, tuples, DI fields and named metadata; blockaddress function and block; uselistorder_bb function and block) redirected to a fresh undefined identifier of the same sigil, and every named definition (type, comdat, global, alias/ifunc, function, metadata id, local value, label, parameter) duplicated; each faulted text is parsed under the canonical order and k seeded map-iteration orders; " +
+		rule: "one evaluation = one asm.ParseString of a corpus module with a single naming fault, under one translation order; the faults are enumerated from llir/ll's own AST of the valid module: every reference site (global in initialisers, operands, callees, aliasees; local operand; named type anywhere; label in br/switch/indirectbr/invoke/callbr targets; phi predecessor; comdat use; metadata id in attachments, tuples, DI fields and named metadata; blockaddress function and block; uselistorder_bb function and block) redirected to an undefined identifier of the same sigil (a fresh name; a name defined only in another namespace; the first unused unnamed ID; near-miss spellings of the original name; the NAME -0; numbers beyond 63 and 64 bits), and every named definition (type, comdat, global, alias/ifunc, function, metadata id, local value, label, parameter) duplicated; each faulted text is parsed under the canonical order and k seeded map-iteration orders; " +
 			"oracle: (nil module, non-nil error) and no panic. distinct_nontrivial counts distinct (module, site kind, offset) faults whose text is still accepted by the grammar",
 		simulated:              []string{"the stored input (one naming fault per run)", "Go map iteration order of the translator's indices (which lookup meets the dangling name first)"},
 		assumptions:            []string{"#N attribute-group uses are not faulted (documented exception); opaque type definitions, unnamed @N/%N definitions, named-metadata and attribute-group definitions are not duplicated (legitimately mergeable or a numbering matter)", "a faulted text that LLVM's own llvm-as also accepts is attributed to the injector, counted and never reported; llvm-as is consulted only for would-be 'accepted' violations", "error text is not inspected"},
